@@ -221,6 +221,13 @@ func (fr *frame) instr(in ssa.Instruction, st *State) {
 	case *ssa.Range:
 		v := fr.val(x.X, st)
 		fr.vals[x] = TV{T: v.T, S: v.S, GT: x.X.Type()}
+		if mt, isMap := x.X.Type().Underlying().(*types.Map); isMap {
+			ks := SortOf(mt.Key())
+			rn := RangeVarName(x)
+			rs := "(Array " + ks + " Bool)"
+			s.getMap(st, rn, rs)
+			st.Maps[rn] = fmt.Sprintf("((as const %s) false)", rs)
+		}
 	case *ssa.Next:
 		fr.next(x, st)
 	case *ssa.Select:
@@ -643,20 +650,37 @@ func (fr *frame) next(x *ssa.Next, st *State) {
 		if mt, isMap := it.GT.Underlying().(*types.Map); isMap {
 			dn, vn := MapMapNames(mt)
 			ks, vs := SortOf(mt.Key()), SortOf(mt.Elem())
+			// the key component may be unused in the source (invalid type): use the map's key sort
+			if k.S != ks {
+				k = TV{T: s.fresh(fr.name(x)+".key", ks), S: ks, GT: mt.Key()}
+			}
 			d := s.getMap(st, dn, "(Array Int (Array "+ks+" Bool))")
 			vv := s.getMap(st, vn, "(Array Int (Array "+ks+" "+vs+"))")
-			cond := fmt.Sprintf("(=> %s (and (not (= %s 0)) (select (select %s %s) %s)", ok.T, it.T, d, it.T, k.T)
-			if v.S == vs && tup.At(2).Type() != types.Typ[types.Invalid] {
+			// ghost set of keys already yielded by this iteration
+			rn := RangeVarName(x.Iter.(*ssa.Range))
+			rs := "(Array " + ks + " Bool)"
+			vis := s.getMap(st, rn, rs)
+			dom := fmt.Sprintf("(select %s %s)", d, it.T)
+			cond := fmt.Sprintf("(=> %s (and (not (= %s 0)) (select %s %s) (not (select %s %s))", ok.T, it.T, dom, k.T, vis, k.T)
+			if v.S == vs {
 				cond += fmt.Sprintf(" (= %s (select (select %s %s) %s))", v.T, vv, it.T, k.T)
 			}
 			cond += "))"
 			s.assume(st, cond)
-			s.note("%s: range over map: iteration order and completeness abstracted (each yielded key is in the map)", FuncKey(fr.fn))
+			// exhausted: every key of the map has been yielded
+			s.assume(st, fmt.Sprintf("(=> (not %s) (forall ((kk %s)) (! (=> (and (not (= %s 0)) (select %s kk)) (select %s kk)) :pattern ((select %s kk)))))", ok.T, ks, it.T, dom, vis, dom))
+			st.Maps[rn] = s.define(rn, rs, fmt.Sprintf("(ite %s (store %s %s true) %s)", ok.T, vis, k.T, vis))
+			s.note("%s: range over map: arbitrary iteration order; the map is assumed not to be modified by the loop body in a way that affects iteration", FuncKey(fr.fn))
 		}
 	} else {
 		s.note("%s: range over string abstracted", FuncKey(fr.fn))
 	}
 	fr.vals[x] = TV{S: "Tuple", Tup: []TV{ok, k, v}}
+}
+
+// RangeVarName is the state variable holding the set of keys a map iteration has yielded.
+func RangeVarName(r *ssa.Range) string {
+	return "R:" + FuncKey(r.Parent()) + "." + r.Name()
 }
 
 // ghostDefaults initialises per-object ghost maps at a fresh reference.
